@@ -24,10 +24,12 @@ RULE = ("cases = (terminal set with strings/regexps/priorities/i-flags, text) le
 ASSUMPTIONS = ["reference lexer RefLexer in vlark/ref.py; CPython re (or the regex module when the case uses it) on a single terminal",
                "all unbounded regexps have the same (infinite) maximal width"]
 
-POOL_STR = ['a', 'ab', 'abc', 'b', 'bc', 'if', 'in', 'i', '=', '==', '===', 'x', 'xy', 'IF', 'If', 'else', 'el', '+', '++', 'z9']
+POOL_STR = ['a', 'ab', 'abc', 'b', 'bc', 'if', 'in', 'i', '=', '==', '===', 'x', 'xy', 'IF', 'If', 'else', 'el', '+', '++', 'z9', '1.2.3', '1.2', '12', '.']
 POOL_RE = [r'[a-z]+', r'[a-c]+', r'[a-z][a-z0-9]*', r'a+', r'ab?', r'[ab]{2}', r'=+', r'i[a-z]', r'[a-zA-Z]+', r'x[yz]?', r'(?:ab)+',
            r'[a-z]{1,3}', r'[0-9]+', r'[a-z0-9]{2}', r'if|in', r'\w+', r'[^ =]', r'e[a-z]{3}', r'\+{1,2}', r'[A-Z]+']
-ALPHA = 'abcixyz= IFel+9'
+ALPHA = 'abcixyz= IFel+9.12'
+# verbose-flag regexps: the padding in the source is not matched text (their real width is what counts in the order)
+POOL_RE_X = [r' \d \. \d ', r' [a-z]   [a-z] ', r' a  b ? ', r' =  = ', r' i  f   # keyword', r' \d + ']
 
 
 def gen_terms(rng, big=False):
@@ -37,8 +39,10 @@ def gen_terms(rng, big=False):
         name = 'T%d' % i if rng.random() < 0.6 else rng.choice(['A', 'B', 'KW', 'NAME', 'ID', 'Z', 'AA']) + str(i)
         if rng.random() < 0.5:
             pat = ['s', rng.choice(POOL_STR), 'i' if rng.random() < 0.25 else '']
+        elif rng.random() < 0.12:
+            pat = ['x', rng.choice(POOL_RE_X), rng.choice(['x', 'x', 'ix'])]
         else:
-            pat = ['x', rng.choice(POOL_RE), 'i' if rng.random() < 0.2 else '']
+            pat = ['x', rng.choice(POOL_RE), rng.choice(['i', 's', 'm', 'is']) if rng.random() < 0.25 else '']
         if tuple(pat) in used:
             continue
         used.add(tuple(pat))
@@ -115,6 +119,15 @@ def lex_case(ctx, terms, ignore, text, opts, l, lx, rterms, feats0, gtext, via_l
     if not via_lex and not exp and fail is None:
         return
     out = call(ctx, 'lex' if via_lex else 'parse', run, raw=True)
+    if via_lex and ignore and out[0] == 'ok':
+        # the same instance asked again without dont_ignore: ignored terminals must be dropped (whatever it did before)
+        exp2, fail2 = lx.lex(text, keep_ignored=False)
+        out2 = call(ctx, 'lex', lambda: [canon_token(t) for t in l.lex(arg)], raw=True)
+        ctx.count('feature:lex-after-dont_ignore')
+        if fail2 is None and (out2[0] != 'ok' or [(t[1], t[2], t[3], t[4]) for t in out2[1]] != [(n, ('b:' + v) if use_bytes else v, a, b) for n, v, a, b in exp2]):
+            ctx.violation('plain-lex-after-dont_ignore-lex-differs-from-reference', dict(case, second_call='lex() after lex(dont_ignore=True)'),
+                          {'lark': out2[1] if out2[0] == 'ok' else out2, 'reference': exp2})
+            return
     if out[0] in ('wall', 'budget'):
         ctx.inconc('guard in lex', case) if out[0] == 'wall' else ctx.violation('no-termination', case, {})
         return
